@@ -2,8 +2,9 @@ SPECIFICATION Spec
 CONSTANTS
   NK = 5
   NV = 3
+  Shades = 2
   BDepth = 1
   Obs <- ObsEmit
-INVARIANTS TypeOK SortedNoDup GetAfterSet RemoveOnce FillLaw IterLaw
+INVARIANTS TypeOK SortedNoDup GetAfterSet RemoveOnce FillLaw ExactValueLaw IterLaw
 PROPERTIES MutatorsOnly SlotsIndependent DupIsEqual
 CHECK_DEADLOCK FALSE
